@@ -240,6 +240,18 @@ class MultiMatcher(mcore.Matcher):
         return all(mr.supports_block_quality() for mr
                    in self.matchers[self.current:])
 
+    def skip_to_quality(self, minquality):
+        # Let the current sub-matcher skip; if that exhausts it, go on with
+        # the next one
+        skipped = 0
+        while self.is_active():
+            mr = self.matchers[self.current]
+            skipped += mr.skip_to_quality(minquality)
+            if mr.is_active():
+                break
+            self._next_matcher()
+        return skipped
+
     def max_quality(self):
         return max(m.max_quality() for m in self.matchers[self.current:])
 
